@@ -182,6 +182,22 @@ func (fx *FnCtx) noteHeapSymbol(h *Term, name string, leaf Leaf) {
 		return
 	}
 	tc := fx.tc
+	if leaf.Kind == "cap" && strings.HasSuffix(name, ".cap") && leaf.Sort.Kind != SArray {
+		// a slice held in memory has len <= cap (for every location of the heap, so that the fact is
+		// available under quantifiers too)
+		lenName := strings.TrimSuffix(name, ".cap") + ".len"
+		if hi, ok := fx.V.heapLeaves[lenName]; ok && h == Sym("H0_"+tc.Mode.String()+"_"+name, h.Sort) {
+			hl := Sym("H0_"+tc.Mode.String()+"_"+lenName, hi.Sort)
+			var bound []*Term
+			cl, cc := hl, h
+			for cc.Sort.Kind == SArray {
+				b := BoundVar("q", cc.Sort.Idx)
+				bound = append(bound, b)
+				cl, cc = Select(cl, b), Select(cc, b)
+			}
+			fx.root.axioms = append(fx.root.axioms, Forall(bound, tc.IdxLe(cl, cc), []*Term{cc}))
+		}
+	}
 	needRange := false
 	if leaf.Kind == "int" && tc.Mode == ModeInt {
 		w, signed, _ := intInfo(leaf.T)
